@@ -254,11 +254,16 @@ deriving DecidableEq, Repr, Inhabited
 def Rat'.str (r : Rat') : String :=
   if r.den = 1 then toString r.num else toString r.num ++ "/" ++ toString r.den
 
-/-- `strings.SplitN(s, "/", 2)` then two `ParseUint`s -/
+/-- `strings.SplitN(s, "/", 2)`: text before the first `/`, and the text after it if there is one -/
+def splitSlash : List Char → List Char × Option (List Char)
+  | [] => ([], none)
+  | c :: r => if c = '/' then ([], some r) else let p := splitSlash r; (c :: p.1, p.2)
+
+/-- `util.ParseRat`: `SplitN(s, "/", 2)` then `ParseUint` of each part -/
 def parseRat (s : List Char) : Option Rat' :=
-  match s.span (· ≠ '/') with
-  | (a, []) => (parseUint a).map (⟨·, 1⟩)
-  | (a, _ :: b) =>
+  match splitSlash s with
+  | (a, none) => (parseUint a).map (⟨·, 1⟩)
+  | (a, some b) =>
     match parseUint a, parseUint b with
     | some n, some d => some ⟨n, d⟩
     | _, _ => none
